@@ -220,6 +220,8 @@ func ResponseCorpus(thorough bool) []*RespItem {
 	add("chunked", g, "HTTP/1.1 200 OK\r\nTransfer-Encoding: chunked\r\n\r\n3\r\nabc\r\n2\r\nde\r\n0\r\n\r\n")
 	add("chunked-trailer", g, "HTTP/1.1 200 OK\r\nTrailer: X-T\r\nTransfer-Encoding: chunked\r\n\r\n1\r\na\r\n0\r\nX-T: tv\r\n\r\n")
 	add("chunked-trailer-fold", g, "HTTP/1.1 200 OK\r\nTransfer-Encoding: chunked\r\n\r\n1\r\na\r\n0\r\nX-T: t1\r\n t2\r\n\r\n")
+	add("chunked-trailer-fold-announced", g, "HTTP/1.1 200 OK\r\nTrailer: X-T\r\nTransfer-Encoding: chunked\r\n\r\n1\r\na\r\n0\r\nX-T: t1\r\n t2\r\n\r\n")
+	add("chunked-trailer-dup-announced", g, "HTTP/1.1 200 OK\r\nTrailer: X-A, X-A, X-B\r\nTransfer-Encoding: chunked\r\n\r\n1\r\na\r\n0\r\nX-A: 1\r\nX-B: b\r\nX-A: 2\r\n\r\n")
 	add("until-close", g, "HTTP/1.1 200 OK\r\nConnection: close\r\n\r\nbody until close")
 	add("http10", g, "HTTP/1.0 200 OK\r\n\r\nold style body")
 	add("continue", g, "HTTP/1.1 100 Continue\r\n\r\nHTTP/1.1 200 OK\r\nContent-Length: 2\r\n\r\nok")
